@@ -166,7 +166,8 @@ class Fn:
     @property
     def succ(self):
         if self._succ is None:
-            self._succ = [list(dict.fromkeys(self.term_succs(i))) for i in range(len(self.blocks))]
+            dead = {i for i, b in enumerate(self.blocks) if b["t"][0] == "unreachable"}
+            self._succ = [[x for x in dict.fromkeys(self.term_succs(i)) if x not in dead] for i in range(len(self.blocks))]
             if self.is_coroutine:
                 self._coroutine_edges()
         return self._succ
